@@ -104,7 +104,22 @@ func c18Round(c *RunCtx, seed uint64, nreq int, dropAt int, timing *[]VReport) {
 			later(reqTimeout+250*time.Millisecond, func() { srv.Publish(p.Reply, reply) })
 		}
 	}
-	cl := &rnats.Client{RequestTimeout: reqTimeout, URL: srv.URL(), Logger: memLogAdapter{&MemLog{}}, BufferSize: 8192}
+	// in a third of the rounds the adapter traces into a slow sink: writing a
+	// request's trace line takes a few milliseconds (an injected delay at a
+	// point where the adapter does I/O anyway)
+	var lg interface {
+		Log(string)
+		Error(string)
+		Debug(string)
+		Trace(string)
+		IsDebug() bool
+		IsTrace() bool
+	} = memLogAdapter{&MemLog{}}
+	if seed%3 == 0 {
+		lg = &slowTraceLogger{memLogAdapter{&MemLog{}}}
+		c.Stat("c18_rounds_slow_trace", 1)
+	}
+	cl := &rnats.Client{RequestTimeout: reqTimeout, URL: srv.URL(), Logger: lg, BufferSize: 8192}
 	if err := cl.Connect(); err != nil {
 		c.Inconclusive("adapter connect: " + err.Error())
 		return
@@ -421,4 +436,14 @@ func init() {
 		}
 		return false, ""
 	})
+}
+
+// slowTraceLogger traces, and takes its time to write the line of an outgoing request.
+type slowTraceLogger struct{ memLogAdapter }
+
+func (l *slowTraceLogger) IsTrace() bool { return true }
+func (l *slowTraceLogger) Trace(s string) {
+	if strings.HasPrefix(s, "<==") {
+		time.Sleep(3 * time.Millisecond)
+	}
 }
